@@ -102,3 +102,40 @@ impl Rng {
         (self.u64() >> 11) as f64 / (1u64 << 53) as f64
     }
 }
+
+/// A family of names of one length that differ from each other in a single position only (two positions beyond 52 members): the structured
+/// names of real libraries (`sky130_fd_sc_hs__inv_1` / `sky130_fd_sc_ls__inv_1`, `..._row_017_...` / `..._row_018_...`). The position is
+/// anywhere - first character, last, just before the last eight, past the 32nd or 48th - and the length anything from 9 to 80 bytes.
+#[derive(Clone, Debug)]
+pub struct NameFamily {
+    base: Vec<u8>,
+    pos: usize,
+}
+impl NameFamily {
+    pub fn random(rng: &mut Rng) -> Self {
+        let len = match rng.below(4) {
+            0 => 9 + rng.usize(16),
+            1 => 17 + rng.usize(16),
+            2 => 33 + rng.usize(24),
+            _ => 40 + rng.usize(41),
+        };
+        let base: Vec<u8> = (0..len).map(|i| if i % 7 == 6 { b'_' } else { *rng.pick(b"abcdefghijklmnopqrstuvwxyz0123456789") }).collect();
+        let pos = match rng.below(6) {
+            0 => 0,
+            1 => len - 1,
+            2 => len - 9 - rng.usize(len.min(16) - 8).min(len - 9),
+            3 => len / 2,
+            _ => rng.usize(len),
+        };
+        NameFamily { base, pos }
+    }
+    pub fn name(&self, i: usize) -> String {
+        const L: &[u8; 52] = b"abcdefghijklmnopqrstuvwxyzABCDEFGHIJKLMNOPQRSTUVWXYZ";
+        let mut v = self.base.clone();
+        v[0] = b'n';
+        v[self.pos] = L[i % 52];
+        let second = (self.pos + 1) % v.len();
+        v[second] = L[(i / 52) % 52];
+        String::from_utf8(v).unwrap()
+    }
+}
